@@ -276,7 +276,9 @@ PROPS = {
   theorems="Jp.C10.step_refines, history_refines, no_step_panics, nodes_addressable_after, wf_preserved",
  ),
  "C11": dict(
-  ops={"buf_hist": dict(fields=["steps"], spec=[("steps", "spec_steps", ident)], laws=["law_deque"])},
+  ops={"buf_hist": dict(fields=["steps"], spec=[("steps", "spec_steps", ident)], laws=["law_deque"]),
+       # an integer as the token argument of push_back / push_front / replace / from_tokens / with_*_token
+       "tok_int": dict(fields=["enc"], laws=["law_decimal"])},
   rule="all histories of length ≤3 over a 10-step pool from 3 start pointers + seeded random histories (1–12 / ≤40 steps); non-trivial: a token is empty or needs escaping, or ≥3 steps",
   exhaustive="all histories of length ≤ 3 over 10 steps from the pointers \"\", \"/\", \"/a/~0\"",
   theorems="Jp.C11.step_refines, history_refines, history_text, history_decoded, replace_out_of_range, append_*",
